@@ -233,13 +233,16 @@ Proof.
   - unfold add_one. destruct (is_compressed s).
     + apply add_stays; [apply s_nil | exact Hb].
     + apply add_reset; [apply r_nl | apply E_G, Hb].
-  - assert (H1 : E (do_indent_no_nl s ind b) k) by (apply do_indent_no_nl_E, Hb).
-    unfold E, add_one in *. rewrite stb_add, stb_add, stb_add, H1.
-    change (run_from (N0, k) [47; 42]) with (Com, k).
-    destruct (comment_stays _ (no_slash_comment_text s ind t Ht) Com k eq_refl) as [m' [R Hm']].
-    rewrite R. destruct (is_compressed s).
-    + apply comment_close, Hm'.
-    + change [42;47;10] with ([42;47] ++ [10]). rewrite run_from_app, (comment_close _ _ Hm'). reflexivity.
+  - destruct (is_compressed s) eqn:Ec.
+    + unfold E in *. rewrite stb_add, stb_add, stb_add, Hb.
+      change (run_from (N0, k) [47; 42]) with (Com, k).
+      destruct (comment_stays _ Ht Com k eq_refl) as [m' [R Hm']].
+      rewrite R. apply comment_close, Hm'.
+    + assert (H1 : E (do_indent_no_nl s ind b) k) by (apply do_indent_no_nl_E, Hb).
+      unfold E, add_one in *. rewrite Ec. rewrite stb_add, stb_add, stb_add, H1.
+      change (run_from (N0, k) [47; 42]) with (Com, k).
+      destruct (comment_stays _ (no_slash_comment_text s ind t Ht) Com k eq_refl) as [m' [R Hm']].
+      rewrite R. change [42;47;10] with ([42;47] ++ [10]). rewrite run_from_app, (comment_close _ _ Hm'). reflexivity.
 Qed.
 
 (* ------------------------------------------------------------------------ *)
@@ -733,7 +736,7 @@ Lemma nonl_write_comment ind t b : nonl t = true -> nonl b = true ->
 Proof.
   intros Ht Hb. unfold write_comment. destruct (head_is 35 t).
   - exact Hb.
-  - rewrite comment_text_nonl by exact Ht. unfold add_one, do_indent_no_nl. cbn [is_compressed]. nonl_adds.
+  - cbn [is_compressed]. nonl_adds.
 Qed.
 
 Definition nonl_margs_goal (a : margs) : Prop :=
